@@ -3,6 +3,7 @@ import dns
 import pktgen
 
 SLICE = "RT C and RT P (compressed / plain serialisation then Packet::parse), exact bytes compared with the model"
+USES_TABLE = True
 RULE = ("seeded packets with heavy suffix sharing between owner, question and RDATA names (names extending a pool of shared "
         "suffixes, names differing only in a leading label) + messages padded to straddle offset 16384 where a name first "
         "appears beyond 16383 and is reused; a boundary catalogue placing a multi-label name at every offset 16384-k (k=0..25) "
@@ -22,12 +23,15 @@ def cases(rng, tier):
     ps += pktgen.huge_packets(rng, (0, 40, 16384))
     if tier == "thorough":
         ps += pktgen.big_packets(rng, 6, target=60000)
-    for p in ps:
+    for k, p in enumerate(ps):
         t = dns.pkt_text(p)
         for m in ("C", "P"):
             c = "RT %s %s" % (m, t)
             DESCS[c] = p
             out.append(c)
+        if k % 8 == 0 and len(t) < 40000:
+            # the table behind the compression (cfg hook): the model's table, entry for entry, and true of the message
+            out.append("TABLE " + t)
     return out
 
 
@@ -36,14 +40,21 @@ def normalize(case, out):
 
 
 def classify(case, out):
+    if case.startswith("TABLE"):
+        return "TABLE:" + out.split(" ")[0]
     return case[3] + ":" + out.split(" ")[0] + ("/" + out.split(" | ")[1].split(" ")[0] if " | " in out else "")
 
 
 def nontrivial(case, out):
-    return " | OK" in out
+    return " | OK" in out or (case.startswith("TABLE") and out.startswith("OK"))
 
 
 def oracle(case, out):
+    if case.startswith("TABLE"):
+        if out.startswith("PANIC") or out in ("HANG", "CRASH"):
+            return "%s on %s" % (out, case[:200])
+        import pC07
+        return pC07.oracle_table(case, out)
     p = DESCS.get(case) or dns.parse_pkt_text(case[5:])
     if not out.startswith("OK "):
         return "serialisation failed on a well-formed packet: %r" % out[:200]
